@@ -61,3 +61,22 @@ def run_text(text: str, spec: str, verify: bool = True):
     if verify:
         mod.verify()
     return run_pipeline(mod, spec, verify=verify)
+
+
+def add_companion(text: str, prev_text: str | None, name: str = "g") -> str:
+    """One pass run over several functions: append the single function @f of `prev_text` (renamed to @<name>) to the module `text`.
+    Checks keep judging @f only; what a pass remembers from one function to the next (caches, counters, shared state) now matters.
+    Returns `text` unchanged when prev_text cannot be used (declarations, several functions, globals)."""
+    if not prev_text:
+        return text
+    body = prev_text.strip()
+    if body.count("func.func") != 1 or "memref.global" in body or "@f(" not in body or text.count("func.func") != 1:
+        return text
+    start = body.index("func.func")
+    end = body.rindex("}")          # closing brace of the module
+    fn = body[start:end].rstrip()
+    fn = fn.replace("@f(", f"@{name}(", 1)
+    t = text.rstrip()
+    if not t.endswith("}"):
+        return text
+    return t[:-1].rstrip() + "\n  " + fn + "\n}\n"
